@@ -257,7 +257,7 @@ func c01(c *core.Ctx) {
 		// the message enqueued is the (clamped) msg parameter
 		okMsg := false
 		for _, st := range storesToField(am, "persistence/queue.Publish.Message") {
-			if st.Val == ssa.Value(am.Params[3]) {
+			if st.Val == ssa.Value(paramOf(am, 3)) {
 				okMsg = true
 			}
 		}
@@ -310,7 +310,7 @@ func c01(c *core.Ctx) {
 			// appended ids come from the ids parameter
 			src := false
 			for _, a := range cs.Instr.Common().Args[1:] {
-				if ssax.AnyIn(ssax.Backward(a), func(v ssa.Value) bool { return v == ssa.Value(am.Params[5]) }) {
+				if ssax.AnyIn(ssax.Backward(a), func(v ssa.Value) bool { return v == ssa.Value(paramOf(am, 5)) }) {
 					src = true
 				}
 			}
@@ -367,7 +367,7 @@ func c01(c *core.Ctx) {
 			if !ok || (bo.Op != token.EQL && bo.Op != token.NEQ) {
 				return
 			}
-			isCID := func(v ssa.Value) bool { return v == ssa.Value(gate.Params[0]) }
+			isCID := func(v ssa.Value) bool { return v == ssa.Value(paramOf(gate, 0)) }
 			isSrc := func(v ssa.Value) bool {
 				return ssax.AnyIn(ssax.Backward(v), func(w ssa.Value) bool {
 					fv, ok := w.(*ssa.FreeVar)
@@ -375,12 +375,12 @@ func c01(c *core.Ctx) {
 						return false
 					}
 					for _, b := range ssax.ParentBinding(fv) {
-						if b == ssa.Value(ndh.Params[1]) {
+						if b == ssa.Value(paramOf(ndh, 1)) {
 							return true
 						}
 						if al, ok := b.(*ssa.Alloc); ok {
 							for _, s := range ssax.StoresTo(al) {
-								if s.Val == ssa.Value(ndh.Params[1]) {
+								if s.Val == ssa.Value(paramOf(ndh, 1)) {
 									return true
 								}
 							}
@@ -463,13 +463,13 @@ func c01(c *core.Ctx) {
 					op := cmpUnder(bo, g.Branch)
 					x, y := bo.X, bo.Y
 					newQ := func(v ssa.Value) bool {
-						return ssax.LoadOfField("gmqtt.Subscription.QoS")(v) && ssax.AnyIn(ssax.Backward(v), func(w ssa.Value) bool { return w == ssa.Value(onlyonce.Params[1]) })
+						return ssax.LoadOfField("gmqtt.Subscription.QoS")(v) && ssax.AnyIn(ssax.Backward(v), func(w ssa.Value) bool { return w == ssa.Value(paramOf(onlyonce, 1)) })
 					}
 					if newQ(x) && !newQ(y) {
 						x, y = y, x
 						op = flipCmp(op)
 					}
-					if newQ(y) && ssax.LoadOfField("gmqtt.Subscription.QoS")(x) && op == token.LSS && st.Val == ssa.Value(onlyonce.Params[1]) {
+					if newQ(y) && ssax.LoadOfField("gmqtt.Subscription.QoS")(x) && op == token.LSS && st.Val == ssa.Value(paramOf(onlyonce, 1)) {
 						okMax = true
 					}
 				}
@@ -489,7 +489,7 @@ func c01(c *core.Ctx) {
 		c.Check(ssax.Dominates(its[0].Instr, fls[0].Instr), "C01.R8", "deliverMessage|iterate-then-flush", ipos(c, fls[0].Instr), "flush after the iteration", "flush does not follow the iteration of the subscription store")
 		okFn := ssax.AnyIn(ssax.Backward(ssax.Args(its[0].Instr)[0]), ssax.LoadOfField("server.deliverHandler.fn"))
 		c.Check(okFn, "C01.R8", "deliverMessage|callback", ipos(c, its[0].Instr), "iterates with the handler's callback", "the subscription store is not iterated with the deliver handler's callback")
-		okOpts := ssax.Args(its[0].Instr)[1] == ssa.Value(dm.Params[3])
+		okOpts := ssax.Args(its[0].Instr)[1] == ssa.Value(paramOf(dm, 3))
 		c.Check(okOpts, "C01.R8", "deliverMessage|options", ipos(c, its[0].Instr), "iterates with the caller's options", "the iteration options given by the caller are not what the store is iterated with")
 		okRet := false
 		ssax.Instrs(dm, false, func(_ *ssa.Function, in ssa.Instruction) {
